@@ -117,7 +117,8 @@ class Session:
             return ("raise", None, type(exc).__name__)
 
     # ---------------------------------------------------------------- operations
-    def rate(self, mh, teams, ranks=ABSENT, scores=ABSENT, tau=ABSENT, limit_sigma=ABSENT, group="", role="", aux=None):
+    def rate(self, mh, teams, ranks=ABSENT, scores=ABSENT, tau=ABSENT, limit_sigma=ABSENT, group="", role="", aux=None, positional=False):
+        """positional=True passes (teams, ranks, scores, tau, limit_sigma) by position, in the documented order."""
         kw = {}
         if ranks is not ABSENT:
             kw["ranks"] = ranks
@@ -137,15 +138,25 @@ class Session:
             "tau": self.enc(kw.get("tau")),
             "limit": self.enc(kw.get("limit_sigma")),
         }
-        kind, val, exc = self.outcome_of(lambda: mh.m.rate(teams, **kw))
+        if positional:
+            kind, val, exc = self.outcome_of(lambda: mh.m.rate(teams, kw.get("ranks"), kw.get("scores"), kw.get("tau"), kw.get("limit_sigma")))
+        else:
+            kind, val, exc = self.outcome_of(lambda: mh.m.rate(teams, **kw))
         ev["out"] = {"kind": kind, "exc": exc, "value": self.enc(val)}
         ev["after"] = self.enc(teams)
+        ev["ranks_after"] = self.enc(kw.get("ranks"))
+        ev["scores_after"] = self.enc(kw.get("scores"))
         ev["model_after"] = self.enc_model(mh)
         ev["group"], ev["role"] = group, role
         if aux is not None:
             ev["aux"] = self.enc(aux)
         self.emit(ev)
         return val
+
+    def set_model_attr(self, mh, name, value):
+        """The caller assigns a public attribute of a model object: from now on that is the model's configuration."""
+        setattr(mh.m, name, value)
+        mh.constructed = self.enc_model(mh)
 
     def predict(self, op, mh, teams, group="", role="", aux=None):
         fn = {"win": "predict_win", "draw": "predict_draw", "rank": "predict_rank"}[op]
